@@ -213,7 +213,9 @@ func (c *FnCtx) tr(e *Expr, env *Env) (Term, types.Type) {
 		}
 		switch u := bt.Underlying().(type) {
 		case *types.Slice:
-			return app("select", c.inner(c.get(env.st, c.elemComp(u.Elem())), app("s-ref", b)), idxAt(app("s-off", b), i)), u.Elem()
+			t := app("select", c.inner(c.get(env.st, c.elemComp(u.Elem())), app("s-ref", b)), idxAt(app("s-off", b), i))
+			c.specHeapWF(t, u.Elem(), env.st)
+			return t, u.Elem()
 		case *types.Basic:
 			if isString(bt) {
 				return app("select", app("str-arr", b), i), tByte
